@@ -58,7 +58,8 @@ LEVEL_TEXT = ("Seeded base shapes (heights 1-4, small and default node "
 
 WRITES = ("set", "del", "insert", "setdefault", "pop", "popd", "popitem",
           "update", "add", "sinsert", "remove", "discard", "spop",
-          "supdate")
+          "supdate", "ior", "iand", "isub", "ixor")
+INPLACE = ("ior", "iand", "isub", "ixor")
 READS = ("get", "getd", "getitem", "in", "has_key", "len", "bool", "iter",
          "keys", "values", "items", "minKey", "maxKey", "range")
 
@@ -110,6 +111,18 @@ def _txn(rng, g, nkeys, nvals, mapping, focus=None):
                                    ["discard", k],
                                    ["supdate", [k, (k + 1) % nkeys],
                                     "list"]]))
+    if not mapping and rng.random() < 0.12:
+        # one in-place set operator (at most one per transaction, so that a
+        # signature can name it)
+        name = rng.choice(INPLACE)
+        if name == "iand":
+            # keep most keys: an intersection with a large operand
+            ks = [k for k in range(nkeys) if rng.random() < 0.8]
+        else:
+            ks = sorted(set(rng.randrange(nkeys)
+                            for _ in range(rng.randint(1, 5))))
+        out.insert(rng.randrange(len(out) + 1),
+                   [name, ks, rng.choice(["list", "Set", "TreeSet"])])
     return out
 
 
@@ -257,6 +270,12 @@ def _resolve_symbolic(txn, base_walk, dom, mapping, model_d):
                 if k not in model_d:
                     out.append(["set", k, op[2]] if mapping else ["add", k])
     return out
+
+
+def _bulk(sig, concrete):
+    names = sorted(set(o[0] for o in concrete if o[0] in INPLACE))
+    if names:
+        sig["bulk"] = "+".join(names)
 
 
 def _total(model, op):
@@ -475,6 +494,7 @@ def _one_order(plan, order, ctx, tag):
         cl = clients[i]
         sigbase = {"oracle": "occ-outcome", "impl": impl, "kind": kind,
                    "pos": min(pos, 2)}
+        _bulk(sigbase, cl["ops"])
         m = ops.Model(dom, kind)
         m.d = dict(S)
         for op in cl["ops"]:
@@ -623,6 +643,7 @@ def _long_run(plan, ctx):
             conn = conns[i]
             sigbase = {"oracle": "occ-outcome", "impl": impl, "kind": kind,
                        "pos": "long"}
+            _bulk(sigbase, cl["ops"])
             m = ops.Model(dom, kind)
             m.d = dict(S)
             for op in cl["ops"]:
